@@ -263,8 +263,8 @@ impl RADAU {
         }
         h = h.clamp(-hmax, hmax);
 
-        // The first step must not pass xend either
-        let first_step_lands = (x + h - xend) * posneg >= 0.0;
+        // The first step must not pass xend either (nor stop a rounding error short of it)
+        let first_step_lands = (x + 1.01 * h - xend) * posneg >= 0.0;
         if first_step_lands {
             h = xend - x;
         }
@@ -790,8 +790,10 @@ impl RADAU {
                     reject = false;
                 }
 
-                // Sophisticated step size control
-                if (x + hnew / quot1 - xend) * posneg >= 0.0 {
+                // Sophisticated step size control. The last step is stretched by up to 1% (as in the explicit
+                // solvers) so that a step sequence which adds up to xend minus a rounding remainder still lands on
+                // xend instead of leaving a remainder the step size guard rejects.
+                if (x + 1.01 * hnew / quot1 - xend) * posneg >= 0.0 {
                     h = xend - x;
                     last = true;
                 } else {
